@@ -205,7 +205,7 @@ func main() {
 	r.Rule = "every scripted result set of the bounded space is pushed through the real encoder; the concatenated chunks must be exactly one JSON value (encoding/json Decoder, no trailing data) of the endpoint's schema whose content equals the scripted rows. A case is distinct by (endpoint, series sizes, fingerprints, batch composition incl. empty batches, EOF sentinel) resp. (endpoint, position, hostile atom / number)"
 	r.Assumptions = []string{
 		"rows of one series are contiguous in the row sequence (ORDER BY fingerprint of the final SQL / grouping of ResponseOptimizerPlanner); the 3000-entry flush that breaks this is exercised through the real pipeline",
-		"a string 'round-trips' when the decoded value equals the original with every byte that is not valid UTF-8 replaced by U+FFFD (what encoding/json itself does); raw invalid bytes inside a JSON string are accepted by encoding/json and only counted",
+		"a string 'round-trips' when the decoded value equals the original with every byte that is not valid UTF-8 replaced by U+FFFD (what encoding/json itself does); the body as a whole must be valid UTF-8; runs of U+FFFD are collapsed before comparing, so per-byte and per-sequence replacement are both accepted",
 		"timestamps of matrix samples lie on the millisecond grid (from is whole seconds, step is milliseconds); instant-vector timestamps on whole seconds",
 		"mid-stream database errors are out of scope (no result row); a worker that dies (panic inside an encoder goroutine) ends the run with exit 2 (harness failure), not with a verdict",
 		"Tail runs on an instrumented copy of queryRangeService.go in which only the ticker period literal is replaced (1 s -> 1 ms), see prepare.sh",
